@@ -118,37 +118,37 @@ Qed.
 
 (** ** the same about the generator of the current tree ([generate_real]: LoadSchema, then the
     generator with the member-name repair); [generate_real_agree] (ClientGenAgree.v) *)
-Theorem real_accepts_wf : forall S d,
+Theorem real_accepts_wf : forall D S d,
   env S d = true -> schema_loadable S = true -> excl_member_clash S d = false -> decl_safe S d = true ->
-  exists p, generate_real S (doc_valid S d) d = GOk p /\ wf_program p = true.
-Proof. intros S d H1 HL H2 H3. rewrite (generate_real_agree S d H1 H2 H3 HL). apply cli_accepts_wf; assumption. Qed.
+  exists p, generate_real D S (doc_valid S d) d = GOk p /\ wf_program p = true.
+Proof. intros D S d H1 HL H2 H3. rewrite (generate_real_agree S d H1 H2 H3 D HL). apply cli_accepts_wf; assumption. Qed.
 
-Theorem real_wf_clauses : forall S d,
+Theorem real_wf_clauses : forall D S d,
   env S d = true -> schema_loadable S = true -> excl_member_clash S d = false -> decl_safe S d = true ->
-  exists p, generate_real S (doc_valid S d) d = GOk p /\
+  exists p, generate_real D S (doc_valid S d) d = GOk p /\
             cl_struct_members p /\ cl_references p /\ cl_method_forwarders p /\ cl_identifiers p.
-Proof. intros S d H1 HL H2 H3. rewrite (generate_real_agree S d H1 H2 H3 HL). apply cli_wf_clauses; assumption. Qed.
+Proof. intros D S d H1 HL H2 H3. rewrite (generate_real_agree S d H1 H2 H3 D HL). apply cli_wf_clauses; assumption. Qed.
 
-Theorem real_decodes : forall S d,
+Theorem real_decodes : forall D S d,
   env S d = true -> schema_loadable S = true -> excl_member_clash S d = false -> decl_safe S d = true ->
   forall p o opname w,
-    generate_real S (doc_valid S d) d = GOk p ->
+    generate_real D S (doc_valid S d) d = GOk p ->
     In o (d_ops d) -> op_name o = Some opname -> conforms S o w = true ->
     exists n v, (forall fuel, (n <= fuel)%nat -> decode_op p fuel opname (json_of w) = DOk v) /\
                 (forall pl, In pl (leaves v) <-> In pl (expected S o w)).
 Proof.
-  intros S d H1 HL H2 H3 p o opname w Hg. rewrite (generate_real_agree S d H1 H2 H3 HL) in Hg.
+  intros D S d H1 HL H2 H3 p o opname w Hg. rewrite (generate_real_agree S d H1 H2 H3 D HL) in Hg.
   apply (cli_decodes S d H1 HL H2 H3 p o opname w Hg).
 Qed.
 
-Theorem real_invalid_no_output : forall S d p, doc_valid S d = false -> generate_real S (doc_valid S d) d <> GOk p.
+Theorem real_invalid_no_output : forall D S d p, doc_valid S d = false -> generate_real D S (doc_valid S d) d <> GOk p.
 Proof.
-  intros S d p H. rewrite H. unfold generate_real. destruct (load_schema S) as [S'|]; [|discriminate].
+  intros D S d p H. rewrite H. rewrite generate_real_unfold. destruct (load_schema S) as [S'|]; [|discriminate].
   unfold generate_s, generate_raw_s. simpl. discriminate.
 Qed.
 
-Theorem real_too_deep S valid d n ifs fs f t :
-  In (DObj n ifs fs) (s_types S) -> In (f, t) fs -> (typeref_depth < wrappers t)%nat -> generate_real S valid d = GError.
+Theorem real_too_deep D S valid d n ifs fs f t :
+  In (DObj n ifs fs) (s_types S) -> In (f, t) fs -> (typeref_depth < wrappers t)%nat -> generate_real D S valid d = GError.
 Proof.
-  intros Hd Hf Hw. unfold generate_real, load_schema. rewrite (load_typedefs_too_deep S _ n ifs fs f t Hd Hf Hw). reflexivity.
+  intros Hd Hf Hw. rewrite generate_real_unfold. unfold load_schema. rewrite (load_typedefs_too_deep S _ n ifs fs f t Hd Hf Hw). reflexivity.
 Qed.
